@@ -71,6 +71,7 @@ def _work(idx):
         'kind': spec.kind,
         'obligations': [dict(o.as_dict(), cex=o.cex) for o in V.results.values()],
         'cover': V.covers.get(spec.name), 'unsupported': V.unsupported.get(spec.name),
+        'native_only': sorted(V.native_only.get(spec.name, [])),
         'solver_checks': STATS.checks - c0, 'solver_s': round(STATS.solver_s - s0, 3),
         'wall_s': round(time.time() - t0, 3),
     }
@@ -164,7 +165,7 @@ def main(argv=None):
     if not sel:
         print(f'CHECKER-ERROR no contracts for {props}')
         return 3
-    with mp.Pool(min(a.jobs, len(sel)), initializer=_init_worker, initargs=(REPO,)) as pool:
+    with mp.Pool(min(a.jobs, len(sel)), initializer=_init_worker, initargs=(REPO,), maxtasksperchild=1) as pool:
         results = pool.map(_work, [c[0] for c in sel], chunksize=1)
     if a.update_ledger:
         led = dict(ledger) if a.prop and a.prop != 'all' else {}
@@ -197,7 +198,7 @@ def report(prop, results, ledger, tier, seed, t_start):
     expected = set(ledger.get(prop, []))
     got = {o['id'] for o in obligations}
     missing = sorted(expected - got)
-    missing_by_unsupported = [m for m in missing if m.split('/')[0] in unsupported]
+    missing_by_unsupported = [m for m in missing if m.split('/')[0].split('.', 1)[-1] in unsupported]
     hard_missing = [m for m in missing if m not in missing_by_unsupported]
     # 1. failed / unknown obligations
     for o in obligations:
@@ -263,7 +264,7 @@ def report(prop, results, ledger, tier, seed, t_start):
                             'failures': len(st.get('failures', []))})
             for f in st.get('failures', [])[:1]:
                 clause = f['clauses'][0][0]
-                oid = f'{name}/{clause}'
+                oid = f"{r['module'].split('.')[-1]}.{name}/{clause}"
                 rp_path = os.path.join(VERIF, 'replays', f"{prop}-{oid.replace('/', '-')}.json")
                 rp = {'property': prop, 'obligation': oid, 'module': r['module'], 'contract': name, 'clause': clause,
                       'target': r['target'], 'verdict': 'native-bounded', 'inputs': f['inputs'],
@@ -302,7 +303,7 @@ def report(prop, results, ledger, tier, seed, t_start):
             xc['inputs'] += st.get('pre_ok', 0)
             for f in st.get('failures', [])[:1]:
                 clause = f['clauses'][0][0]
-                oid = f"{r['name']}/{clause}"
+                oid = f"{r['module'].split('.')[-1]}.{r['name']}/{clause}"
                 rp_path = os.path.join(VERIF, 'replays', f"{prop}-{oid.replace('/', '-')}.json")
                 xc['failures'] += 1
                 if rp_path in reported:
@@ -346,7 +347,9 @@ def report(prop, results, ledger, tier, seed, t_start):
                                       'feasible_post': (r['cover'] or {}).get('feasible_post'), 'wall_s': r['wall_s']}
                           for r in results},
             'cover_checks': sum((c or {}).get('feasible_post', 0) for c in covers.values()),
-            'bounded_standins': bounded,
+            'bounded_standins': bounded + [
+                {'what': f"{r['name']}/{c}", 'why_not_proved': 'clause evaluated natively only (ensures_native)',
+                 'evaluations': n_native} for r in results for c in r.get('native_only', [])],
             'crosscheck': xc,
             'undecided': undecided,
             'samples': [{'id': o['id'], 'status': o['status'], 'paths': o['paths'], 'time_s': o['time_s']}
